@@ -30,7 +30,7 @@ ASSUMPTIONS = [
     "subdomain/interface order is whatever mdg.subdomains()/interfaces() return (their sorting is C24's clause)",
     "values are read only for blocks written since their (re-)creation; stale data left by removed variables is not constrained",
 ]
-PROBES = ["observation_sparse", "observation_end", "caller_edits_returned_variable_list", "caller_mutates_vector_after_set", "caller_mutates_returned_vector", "zero_size_block", "create_after_remove", "same_name_two_creations", "remove_by_name", "remove_by_md_variable", "remove_by_variable",
+PROBES = ["observation_sparse", "observation_end", "dofs_recounted_without_grid_change", "subsystem_names_not_in_creation_order", "printed_in_between", "caller_edits_returned_variable_list", "caller_mutates_vector_after_set", "caller_mutates_returned_vector", "zero_size_block", "create_after_remove", "same_name_two_creations", "remove_by_name", "remove_by_md_variable", "remove_by_variable",
           "interface_variable", "face_or_node_dofs", "grids_passed_out_of_order", "additive_write", "subset_set_get", "rejected_duplicate_name",
           "rejected_unknown_variable", "rejected_dof_out_of_range", "rejected_both_grid_kinds", "rejected_no_grids", "rejected_bad_dof_type",
           "layout_ge_6_blocks", "empty_system_after_removals", "rejected_remove_after_live_prefix", "caller_reuses_and_mutates_dof_info_dict"]
@@ -179,6 +179,9 @@ def run_history_c05(ch, tr: Trace) -> None:
 
     # ------------------------------------------------------------------ operations
     shared_info: dict = {}
+    # per run: does the caller recycle (and rewrite) its dof_info dictionary between creations?
+    with ch.span("mode"):
+        alias_dicts = ch.flag(1, 2)
 
     def gen_dof_info():
         m = ch.draw(6)
@@ -200,7 +203,7 @@ def run_history_c05(ch, tr: Trace) -> None:
         pool = intfs if on_intf else sds
         grids = ch.shuffle(ch.subset(pool, 1))
         dof_info = gen_dof_info()
-        if ch.flag(1, 4):
+        if alias_dicts and ch.flag(1, 2):
             # the caller reuses one dictionary object for several creations and rewrites it in between: the layout of
             # earlier variables is fixed by the multiplicities declared at *their* creation
             if shared_info:
@@ -382,7 +385,58 @@ def run_history_c05(ch, tr: Trace) -> None:
             return
         raise Violation("invalid_call_rejected", f"invalid call {nm} was accepted")
 
+    def op_recount():
+        """update_variable_num_dofs() without any change of the grids: the layout must be as before."""
+        try:
+            es.update_variable_num_dofs()
+        except Exception as e:  # noqa: BLE001
+            raise Violation("num_dofs", f"update_variable_num_dofs() raised {e!r}", "recount_raised")
+        tr.probe("dofs_recounted_without_grid_change")
+        tr.op("recount", "ok", changing=False)
+        check_layout("update_variable_num_dofs() on unchanged grids", force=True)
+
+    def op_subsystem():
+        """A subsystem is an equation system in its own right: same ordering rules over the selected variables."""
+        names = sorted({b["name"] for b in live})
+        if not names:
+            return
+        sel = ch.shuffle(ch.subset(names, 1))  # the caller lists the names in an order of its own
+        try:
+            sub = es.SubSystem(variable_names=list(sel))
+        except Exception as e:  # noqa: BLE001
+            raise Violation("blocks_contiguous_in_order", f"SubSystem(variable_names={sel}) raised {e!r}", "subsystem_raised")
+        blocks = [b for b in expected_blocks() if b["name"] in sel]
+        off = 0
+        for b in blocks:
+            try:
+                d = np.asarray(sub.dofs_of([b["var"]]))
+            except Exception as e:  # noqa: BLE001
+                raise Violation("blocks_contiguous_in_order", f"SubSystem(variable_names={sel}).dofs_of({label(b)}) raised {e!r}", "subsystem_raised")
+            exp = np.arange(off, off + b["size"])
+            if not np.array_equal(d, exp):
+                raise Violation("blocks_contiguous_in_order", f"in SubSystem(variable_names={sel}) dofs_of({label(b)}) = {d.tolist()}, the ordering rules put it at {exp.tolist()} (blocks {[(label(x), x['size']) for x in blocks]})", "subsystem_layout")
+            off += b["size"]
+        if sub.num_dofs() != off:
+            raise Violation("num_dofs", f"SubSystem(variable_names={sel}).num_dofs() = {sub.num_dofs()}, selected blocks sum to {off}", "subsystem_layout")
+        if sel != sorted(sel, key=lambda nm: min(b["seq"] for b in live if b["name"] == nm)):
+            tr.probe("subsystem_names_not_in_creation_order")
+        tr.op("subsystem", "ok", sel, changing=False)
+        check_layout("taking a subsystem")
+
+    def op_repr():
+        try:
+            repr(es)
+            str(es)
+        except Exception:  # noqa: BLE001  (__str__ of the pinned tree asserts when one name lives on subdomains and interfaces;
+            pass           #  printing is not a clause of C05 - only that it leaves the layout alone)
+        tr.probe("printed_in_between")
+        tr.op("repr", "ok", changing=False)
+        check_layout("printing the equation system")
+
     ops = [
+        Op("recount", 1, op_recount, enabled=lambda: bool(live)),
+        Op("subsystem", 1, op_subsystem, enabled=lambda: bool(live)),
+        Op("repr", 1, op_repr),
         Op("create", 6, op_create, core=True),
         Op("remove", 3, op_remove, enabled=lambda: bool(live), core=True),
         Op("set_get", 3, op_set_get, enabled=lambda: bool(live)),
